@@ -891,7 +891,8 @@ namespace avel {
 
     [[nodiscard]]
     AVEL_FINL vec8x32f fdim(vec8x32f x, vec8x32f y) {
-        return avel::max(x - y, vec8x32f{0.0f});
+        //x - y is NaN for equal infinities; <cmath>'s fdim returns +0 there
+        return blend(x <= y, vec8x32f{0.0f}, x - y);
     }
 
     [[nodiscard]]
